@@ -24,10 +24,10 @@ def main():
     except ModuleNotFoundError as e:
         print(f"no check for {pid}: {e}")
         return 2
+    case = json.load(open(a.replay)) if a.replay else None   # before Ctx wipes .work/<id>
     ctx = Ctx(pid, a.tier, seed, getattr(mod, "LEVEL", "model_checking"))
     try:
         if a.replay:
-            case = json.load(open(a.replay))
             if not hasattr(mod, "replay"):
                 print(f"{pid}: replay not supported by this check; case was:\n{json.dumps(case, indent=1)[:4000]}")
                 return 2
